@@ -23,7 +23,7 @@ META = {
         "__repr__/__str__, un-picklable object, object that pickles but cannot be unpickled (also inside a list), an "
         "exception instance, lone-surrogate str, NaN}; (b) every chain shape of depth <= 3 over link kinds "
         "{cause, context, suppressed context, both to the same node, both to different nodes}; (c) every linear chain of depth "
-        "<= 6 with per-edge link kind and every back-edge (cycle) position; (d) every exception graph over 3 nodes (per node "
+        "<= 6 with per-edge link kind and every back-edge (cycle) position; (d) every exception graph over 3 nodes, and over 4 nodes with node 3 a leaf (thorough: every graph over 4 nodes) (per node "
         "any cause, any context, suppress flag; incl. self-loops, cycles and nodes reachable by several routes); each through four round trips (JSON text, JSON "
         "dict via model_dump(mode='json') + json, python dict, pickle). Oracle: no exception from dump or load; the loaded "
         "error is an exception; if the class resolves by module + qualname, is reconstructible from its args and every arg is "
@@ -533,10 +533,42 @@ def graph_cases(tier: str) -> List[Tuple[Any, ...]]:
     return out
 
 
+_G4: Dict[str, List[Tuple[Any, ...]]] = {}
+
+
+def graph4_cases(tier: str) -> List[Tuple[Any, ...]]:
+    """Exception graphs over 4 nodes (a node reachable by two routes *and* a cycle *and* a further link need
+    four): quick - node 3 is a leaf (no links of its own), all links of nodes 0..2 into {None, 0..3};
+    thorough - every graph. __suppress_context__ False everywhere / True on the root. Node 0 is raised."""
+    if tier in _G4:
+        return _G4[tier]
+    n = 4
+    opts = [None] + list(range(n))
+    leaf_opts = [None] if tier == "quick" else opts
+    out = []
+    for causes in itertools.product(opts, opts, opts, leaf_opts):
+        for ctxs in itertools.product(opts, opts, opts, leaf_opts):
+            reach = {0}
+            stack = [0]
+            while stack:
+                k = stack.pop()
+                for t in (causes[k], ctxs[k]):
+                    if t is not None and t not in reach:
+                        reach.add(t)
+                        stack.append(t)
+            if len(reach) != n:
+                continue
+            out.append((causes, ctxs, (False,) * n))
+            if causes[0] is not None and ctxs[0] is not None:
+                out.append((causes, ctxs, (True,) + (False,) * (n - 1)))
+    _G4[tier] = out
+    return out
+
+
 def build_graph(case: Tuple[Any, ...]) -> BaseException:
     t = class_table()
     causes, ctxs, sup = case
-    pool = [t["ValueError"], t["Plain"], t["Inner"]]
+    pool = [t["ValueError"], t["Plain"], t["Inner"], t["KeyError"]]
     nodes = [pool[i](f"g{i}", i) for i in range(len(causes))]
     for i, nd in enumerate(nodes):
         if ctxs[i] is not None:
@@ -570,6 +602,9 @@ def shards(tier: str, seed: int) -> List[Any]:
     out += [("chain", tier, i, min(i + 150, m)) for i in range(0, m, 150)]
     g = len(graph_cases(tier))
     out += [("graph", tier, i, min(i + 700, g)) for i in range(0, g, 700)]
+    g4 = len(graph4_cases(tier))
+    step = 1500 if tier == "quick" else 6000
+    out += [("graph4", tier, i, min(i + step, g4)) for i in range(0, g4, step)]
     return out
 
 
@@ -594,6 +629,13 @@ def run_shard(shard: Any) -> Dict[str, Any]:
         for trip in TRIPS:
             for nm, exc in special_instances():
                 check(nm, ("special",), exc, trip, acc, rp={"special": [nm, trip]})
+    elif kind == "graph4":
+        for gi, case in enumerate(graph4_cases(tier)[lo:hi]):
+            for trip in (("json-text", "py-dict") if tier == "quick" else ("json-text", "json-dict", "py-dict")):
+                acc.count("graphs4_checked")
+                check("graph", ("graph",), build_graph(case), trip, acc, chain=True, rp={"graph4": [lo + gi, tier, trip]})
+            if gi % 2003 == 0:
+                acc.sample({"graph4_case": {"causes": case[0], "contexts": case[1], "suppress": case[2]}})
     elif kind == "graph":
         for gi, case in enumerate(graph_cases(tier)[lo:hi]):
             for trip in ("json-text", "json-dict", "py-dict"):
@@ -637,6 +679,9 @@ def replay(obj: Dict[str, Any]) -> int:
     elif "special" in obj:
         nm, trip = obj["special"]
         check(nm, ("special",), dict(special_instances())[nm], trip, acc)
+    elif "graph4" in obj:
+        gi, tier, trip = obj["graph4"]
+        check("graph", ("graph",), build_graph(graph4_cases(tier)[gi]), trip, acc, chain=True)
     elif "graph" in obj:
         gi, tier, trip = obj["graph"]
         check("graph", ("graph",), build_graph(graph_cases(tier)[gi]), trip, acc, chain=True)
